@@ -8,13 +8,16 @@
 package main
 
 import (
+	"bytes"
 	"encoding/json"
 	"fmt"
 	"math/big"
 	"os"
+	"os/exec"
 	"path/filepath"
 	"sort"
 	"strings"
+	"sync/atomic"
 	"time"
 
 	"github.com/martian-lang/martian/martian/core"
@@ -96,7 +99,7 @@ func values(t syntax.TypeId) []string {
 		return []string{"1.5", "2", "1e21", "5e-324", "-0.0", "0.30000000000000004", "123456789012345680000",
 			"2.718281828459045", "123456789.125", "16777217.0", "6.02214076e23", "1.7976931348623157e308", "1e-7", "-1.25e-300", "null"}
 	case "string", "txt", "file", "path":
-		return []string{`"/a/b.txt"`, `""`, `"q\"\\é\n\t☺"`, `"\u0000x"`, "null"}
+		return []string{`"/a/b.txt"`, `""`, `"q\"\\é\n\t☺"`, `"\u0000x"`, `"100% done, 50%% off %s %!d(x) %"`, "null"}
 	case "bool":
 		return []string{"true", "false", "null"}
 	case "map":
@@ -259,6 +262,40 @@ func check(c Case) (out []ev.Finding) {
 		report("produced-source-does-not-compile", firstLine(err.Error())+"\n--- source ---\n"+ev.Short(src, 800))
 		return
 	}
+	// the command-line tool (cmd/mrg, built from the working tree) must print
+	// what the library produces, in both directions
+	if mrgBin != "" && len(c.Types) == 1 {
+		inv0 := core.InvocationData{Call: name, Args: core.LazyArgumentMap{}, Include: "decl.mro", SplitArgs: splitargs}
+		for k, v := range args {
+			inv0.Args[k] = v.(json.RawMessage)
+		}
+		if want, lerr := inv0.BuildCallSource([]string{dir}); lerr == nil {
+			ib, _ := json.Marshal(&inv0)
+			got, gerr := runMrg(dir, ib)
+			if gerr != nil {
+				report("mrg-fails", "mrg fails on invocation data the library converts: "+gerr.Error())
+			} else if got != want {
+				report("mrg-differs-from-library", fmt.Sprintf("mrg prints\n%s\nthe library produces\n%s", ev.Short(got, 400), ev.Short(want, 400)))
+			}
+			if back, berr := runMrg(dir, []byte(want), "--reverse"); berr != nil {
+				report("mrg-reverse-fails", "mrg --reverse fails on call text the library converts: "+berr.Error())
+			} else if linv, lerr := core.InvocationDataFromSource([]byte(want), []string{dir}); lerr == nil {
+				var binv core.InvocationData
+				if derr := json.Unmarshal([]byte(back), &binv); derr != nil {
+					report("mrg-reverse-output-not-json", derr.Error()+": "+ev.Short(back, 300))
+				} else {
+					for k, raw := range linv.Args {
+						a, _ := decode(raw)
+						b, _ := decode(binv.Args[k])
+						if dd := jsonEqExact(a, b); dd != "" {
+							report("mrg-reverse-differs-from-library", "argument "+k+": "+dd)
+						}
+					}
+				}
+			}
+			atomic.AddInt64(&mrgRuns, 1)
+		}
+	}
 	inv, err := core.InvocationDataFromSource([]byte(src), []string{dir})
 	if err != nil {
 		report("mro-to-json-fails", "InvocationDataFromSource: "+err.Error()+"\n--- source ---\n"+ev.Short(src, 800))
@@ -306,6 +343,25 @@ func check(c Case) (out []ev.Finding) {
 		report("text-not-stable", "MRO -> JSON -> MRO changes the text:\n"+ev.Short(src, 400)+"\n=>\n"+ev.Short(src2, 400))
 	}
 	return out
+}
+
+var (
+	mrgBin  string
+	mrgRuns int64
+)
+
+// runMrg runs the real mrg with the MRO path set to dir.
+func runMrg(dir string, stdin []byte, args ...string) (string, error) {
+	cmd := exec.Command(mrgBin, args...)
+	cmd.Env = []string{"MROPATH=" + dir, "PATH=/usr/bin:/bin", "HOME=" + dir}
+	cmd.Dir = dir
+	cmd.Stdin = bytes.NewReader(stdin)
+	var out, errb bytes.Buffer
+	cmd.Stdout, cmd.Stderr = &out, &errb
+	if err := cmd.Run(); err != nil {
+		return out.String(), fmt.Errorf("%v: %s %s", err, ev.Short(errb.String(), 200), ev.Short(out.String(), 200))
+	}
+	return out.String(), nil
 }
 
 func sigClass(c Case) string {
@@ -445,6 +501,17 @@ func main() {
 	r := ev.New("C16", "exploration")
 	r.SetBudget(90*time.Second, 15*time.Minute)
 	var err error
+	// the real mrg, built by bin/build-tierb from the working tree
+	if os.Getenv("VERIF_NO_TIERB") == "" {
+		if root, terr := psx.TierBRoot(); terr == nil {
+			if _, serr := os.Stat(filepath.Join(root, "plain", "bin", "mrg")); serr == nil {
+				mrgBin = filepath.Join(root, "plain", "bin", "mrg")
+			}
+		} else {
+			fmt.Println(terr)
+			os.Exit(2)
+		}
+	}
 	scratch, err = os.MkdirTemp("/dev/shm", "verif-c16-")
 	ev.AtExit(func() { os.RemoveAll(scratch) })
 	if err != nil {
@@ -460,7 +527,8 @@ func main() {
 		r.Eval("replay")
 		r.Sample(c)
 		if len(c.Values) == 0 {
-			forkInvocations(r)
+			r.Set("mrg_binary_round_trips", atomic.LoadInt64(&mrgRuns))
+	forkInvocations(r)
 		} else {
 			for _, f := range check(c) {
 				r.Report(f)
@@ -559,7 +627,7 @@ func main() {
 		}
 	}
 	r.Rule = "every JSON escape spelling (\\u0000-\\u00ff, boundary code units, a surrogate pair, named escapes) as a string value and as a typed-map key; stage signatures with 1 parameter over 75 types (9 base types x array depth 0-2 x typed-map nesting 0-2) x every value of a per-type list (nested structs, typed maps, nulls, +-2^53+-1, max/min int64, 1e21, 5e-324, -0.0, strings with escapes/NUL/non-ASCII, empty collections) and split over an array, a typed map and an empty array of the values; " +
-		"signatures with 2 parameters (all ordered type pairs, depth<=1 in quick) x all 4 split subsets (both orders of naming two split arguments, all 6 orders of three); each through BuildCallSource -> compile -> InvocationDataFromSource -> BuildCallSource: call name, include, split set, argument values (numbers as exact decimals) and text stability; " +
+		"signatures with 2 parameters (all ordered type pairs, depth<=1 in quick) x all 4 split subsets (both orders of naming two split arguments, all 6 orders of three); each through BuildCallSource -> compile -> InvocationDataFromSource -> BuildCallSource (one-parameter cases also through the real mrg binary in both directions, whose output must equal the library's): call name, include, split set, argument values (numbers as exact decimals) and text stability; " +
 		"plus the _invocation file of every stage fork of real pipestance runs of 9 chosen programs and of every dataflow-family program within two steps of the base, three for empty collections (compiles, arguments equal the job's). distinct = distinct (signature, values, split set); non-trivial = some argument is not null"
 	r.Set("cases", len(cases))
 	order := r.Rotate(len(cases))
